@@ -64,15 +64,23 @@ def build_harness(scratch, race=False):
     if key in _harness_cache:
         return _harness_cache[key]
     out = os.path.join(scratch, "verifharness" + ("_race" if race else ""))
-    # keep go.sum in step with the repository's
-    try:
-        shutil.copyfile(os.path.join(REPO, "go.sum"), os.path.join(HARNESS, "go.sum"))
-    except OSError:
-        pass
+    # build from a copy of the harness sources whose go.mod points at the repository under test
+    # (VERIF_REPO, default /repo) with that repository's go.sum
+    src = os.path.join(scratch, "harness_src")
+    if not os.path.isdir(src):
+        shutil.copytree(HARNESS, src, ignore=shutil.ignore_patterns("verifharness*"))
+        gm = open(os.path.join(src, "go.mod")).read()
+        gm = re.sub(r"replace github.com/tokenized/bitcoin_reader => \S+", "replace github.com/tokenized/bitcoin_reader => " + REPO, gm)
+        with open(os.path.join(src, "go.mod"), "w") as fh:
+            fh.write(gm)
+        try:
+            shutil.copyfile(os.path.join(REPO, "go.sum"), os.path.join(src, "go.sum"))
+        except OSError:
+            pass
     cmd = ["go", "build", "-tags", "verif"] + (["-race"] if race else []) + ["-o", out, "."]
-    p = subprocess.run(cmd, cwd=HARNESS, env=GOENV, stdout=subprocess.PIPE, stderr=subprocess.STDOUT, text=True)
+    p = subprocess.run(cmd, cwd=src, env=GOENV, stdout=subprocess.PIPE, stderr=subprocess.STDOUT, text=True)
     if p.returncode != 0:
-        raise Infra("harness build failed (does /repo still compile with -tags verif?):\n" + p.stdout[-4000:])
+        raise Infra("harness build failed (does the repository still compile with -tags verif?):\n" + p.stdout[-4000:])
     _harness_cache[key] = out
     return out
 
